@@ -127,5 +127,19 @@ std::string run_p7tm(const Case& c)
   return "p=" + join(p) + " w=" + join(v);
 }
 
+// probe 8 (second cross-cutting audit, kind B): layout_left/right::mapping<E1> == layout_left/right::mapping<E2> with
+// DIFFERENT extents types on the two sides (other index type, all-dynamic pattern), both directions
+template <class Lay, class Ext>
+std::string run_p8meq(const Case& c)
+{
+  using EB = DS::dextents<long, Ext::rank()>;
+  Ext ea = make_ext<Ext>(c.list("E"));
+  EB eb = make_ext<EB>(c.list("E2"));
+  typename Lay::template mapping<Ext> a(ea);
+  typename Lay::template mapping<EB> b(eb);
+  return "ea=" + join(ext_list(a.extents())) + " eb=" + join(ext_list(b.extents())) + " ab=" + ts(a == b) + " ba=" + ts(b == a) +
+         " ne=" + ts(a != b);
+}
+
 } // namespace c14
 #endif
